@@ -186,6 +186,25 @@ def serve (s : State) (hdr cookie : Option String) : Ans :=
     if uid ≠ 0 && KV.get s.active uid ≠ some true then .http 403 false none 0
     else .http 200 true (some psetOK) uid
 
+/-! ### the influxdb2 digest format (pkg/crypt/algorithm/influxdb2 + go-crypt's Decoder) -/
+
+def Variant.other : Variant → Variant
+  | .sha256 => .sha512
+  | .sha512 => .sha256
+
+/-- `Hasher.Hash(pw).Encode()` = `$<identifier>$<base64url(SHA(pw))>`, damaged by `m`, then
+    `crypt.Decoder.Decode` (leading delimiter, three sections, registered identifier), the variant's
+    `decoderParts` / `decode` (base64 key, not empty) and `Digest.MatchAdvanced`.
+    SHA-2 enters as: equal digests of one variant ⇔ equal inputs; digests of different variants
+    differ (32 vs 64 bytes). -/
+def phcMatch (decoders : List Variant) (v : Variant) (m : Mangle) (pw q : String) : PhcRes :=
+  match m with
+  | .noLead | .lead | .cut => .err .fmt
+  | .unknownId => .err .ident
+  | .swap => if decoders.contains v.other then .matched false else .err .ident
+  | .emptyKey | .extra => if decoders.contains v then .err .key else .err .ident
+  | .none => if decoders.contains v then .matched (q = pw) else .err .ident
+
 def step (s : State) : Op → State × Ans
   | .cfg strong _ cfgB => ({ strong := strong, cfgB := cfgB }, .ok)
   | .strong b => ({ s with strong := b }, .ok)
@@ -201,6 +220,7 @@ def step (s : State) : Op → State × Ans
   | .cs n l => createSession s n l
   | .xs k => expireSession s k
   | .req h c => (s, serve s h c)
+  | .phc ds v m p q => (s, .phc (phcMatch ds v m p q))
 
 def run : State → List Op → List (Op × Ans)
   | _, [] => []
